@@ -49,6 +49,15 @@
 //	      made before the function exists has to obey it -, and (i) with the
 //	      recording function replaced by a second one and removed again in
 //	      mid-history: a function that was replaced is never consulted again.
+//	(vii) depth of derivation (family.go): what Sub hands out is a FailFS that
+//	      hands out file systems and handles in turn, and the whole family has
+//	      one function, whichever member SetFailFunc is called on. Letters
+//	      s=sub.Sub(p) (the pooled view replaced by a view of itself) and handle
+//	      programmes Sub;Sub;open in every part; and (i), (ii), (ii'), (iii),
+//	      (vi) again from start states whose pool holds a view of depth 1, 2
+//	      (thorough: 3), the function of the plan being installed through the
+//	      root, an intermediate view, the pooled view or a sibling of it, before
+//	      or after the rest of the family is derived.
 package main
 
 import (
@@ -113,7 +122,7 @@ func main() {
 	tier := flag.String("tier", "quick", "quick|thorough")
 	replay := flag.String("replay", "", "replay file to re-execute")
 	bases := flag.String("bases", "MemFS,OrefaFS", "base file systems")
-	only := flag.String("only", "", "run only these parts (comma list of: fault,handle,none,okfunc,readonly,stack,when,conc)")
+	only := flag.String("only", "", "run only these parts (comma list of: fault,handle,none,okfunc,readonly,stack,when,family,conc)")
 	depthF := flag.Int("depth", 0, "override the history bound of all parts")
 
 	var w1, w2 string
@@ -189,6 +198,92 @@ func main() {
 	whenLate := 1
 	whenRuns := []whenRun{{lateWhen(1), 0, true, nil}}
 
+	// Depth of derivation and the member of the family SetFailFunc is called on
+	// (family.go), MemFS only (OrefaFS has no Sub). Engine A from start states
+	// whose pool holds a view of depth d: every member of the family as the
+	// target of SetFailFunc, in the recording plan and in the read-only plan; the
+	// order "pre" (family derived under the function) for the root (thorough: for
+	// every member). famSystems lists plan x schedule x target x order for the
+	// given depths of the pooled view: recording plan with histories <= shallow,
+	// read-only plan (few states: the base cannot change) with histories <= deep.
+	// Fault enumeration: every single-fault plan of all histories of up to `hist`
+	// calls, handle programmes through the pooled view where `handle`.
+	type famRun struct {
+		plan  string // plan[@schedule]
+		fam   string
+		depth int
+	}
+
+	type famFault struct {
+		fam    string
+		hist   int
+		handle bool
+		pres   []string
+	}
+
+	var (
+		famRuns   []famRun
+		famFaults []famFault
+	)
+
+	famSystems := func(depths []int, scheds []string, allPre bool, deep, shallow int) {
+		for _, d := range depths {
+			f := family{Depth: d}
+
+			for _, t := range f.members() {
+				for _, pre := range []bool{false, true} {
+					if pre && !(allPre || t == "root") || (pre && t == "w") {
+						continue // w is derived last: nothing is born after it
+					}
+
+					fam := famName(d, t, pre)
+
+					for _, sc := range scheds {
+						if pre && strings.HasPrefix(sc, "late") {
+							continue // nothing is installed while the family is derived
+						}
+
+						famRuns = append(famRuns, famRun{planWhen("okfunc", sc), fam, shallow})
+
+						if sc != whenSwap {
+							famRuns = append(famRuns, famRun{planWhen("readonly", sc), fam, deep})
+						}
+					}
+				}
+			}
+		}
+	}
+
+	if *tier == "thorough" {
+		// depth 2: every schedule, every target, both orders; depths 1 and 3: function
+		// before the first call; four systems as deep as (i) (they replace their
+		// shallower namesakes)
+		famSystems([]int{2}, []string{"", lateWhen(1), whenSwap}, true, 2, 2)
+		famSystems([]int{1, 3}, []string{""}, false, 2, 2)
+
+		for _, fr := range []famRun{
+			{"okfunc", famName(2, "root", false), 3}, {planWhen("okfunc", whenSwap), famName(2, "v2", false), 3},
+			{planWhen("okfunc", whenSwap), famName(2, "v1", false), 3}, {"readonly", famName(2, "v2", false), 3},
+		} {
+			for i := range famRuns {
+				if famRuns[i].plan == fr.plan && famRuns[i].fam == fr.fam {
+					famRuns[i].depth = fr.depth
+				}
+			}
+		}
+	} else {
+		// Every letter through the pooled view is applicable in every state of these
+		// systems, which makes them three to four times as dear per state as (i): one
+		// call in the recording plan for every target, and two calls for the schedule
+		// swap with the pooled view as target - its first call is the recording plan
+		// with the function installed through the nested view, its second call has
+		// the function replaced through it
+		famSystems([]int{2}, []string{""}, false, 2, 1)
+		famSystems([]int{1}, []string{""}, false, 1, 1)
+		famRuns = append(famRuns, famRun{planWhen("okfunc", whenSwap), famName(2, "v2", false), 2})
+		famFaults = []famFault{{famName(2, "root", false), 1, true, nil}, {famName(2, "v2", false), 1, false, nil}}
+	}
+
 	if *tier == "thorough" {
 		bfsDepth, faultHist = 3, 3
 		stackRuns = []stackRun{
@@ -198,6 +293,10 @@ func main() {
 		handlePres = []string{"*"}
 		whenLate = 2
 		whenRuns = []whenRun{{lateWhen(1), 2, true, handlePres}}
+		famFaults = []famFault{
+			{famName(2, "root", false), 2, true, handlePres}, {famName(2, "v2", false), 2, true, nil},
+			{famName(2, "v1", false), 1, false, nil}, {famName(3, "root", false), 1, true, nil}, {famName(1, "w", false), 1, false, nil},
+		}
 	}
 
 	if *depthF > 0 {
@@ -214,6 +313,14 @@ func main() {
 
 		for i := range whenRuns {
 			whenRuns[i].hist = *depthF
+		}
+
+		for i := range famRuns {
+			famRuns[i].depth = *depthF
+		}
+
+		for i := range famFaults {
+			famFaults[i].hist = *depthF
 		}
 	}
 
@@ -351,6 +458,42 @@ func main() {
 		}
 	}
 
+	// ---- (vii) fault enumeration from start states that hold a family ---------
+	var famEngines []*faultEngine
+
+	if part("family") && (part("fault") || part("handle")) && harnessErr == "" {
+		for _, fr := range famFaults {
+			for _, b := range baseNames {
+				if b != "MemFS" {
+					continue // OrefaFS has no Sub
+				}
+
+				fe := newFaultEngine(b, "", joinWhen("", fr.fam))
+				famEngines = append(famEngines, fe)
+
+				if part("fault") && fr.hist > 0 {
+					for l := 0; l < fr.hist; l++ {
+						fe.runLevel(at(0.62), report)
+					}
+
+					fmt.Printf("C12 fault %s: letters=%d histories=%d (length<=%d complete) fault-free runs=%d single-fault runs=%d states=%d %s\n",
+						fe.label(), fe.probe.NumOps(), fe.Histories, fe.HistLen, fe.FaultFree, fe.FaultRuns, fe.States, fe.Partial)
+				}
+
+				if part("handle") && fr.handle {
+					fe.runHandle(fr.pres, at(0.64), report)
+
+					fmt.Printf("C12 handle programmes %s: (open through the pooled view of the family, SetFailFunc before it or at a position inside the prefix)=%d (pre in %v) fault-free runs open;[pre];F=%d single-fault runs open;[pre];F fails;G;Close=%d twin followed to the end in %d %s\n",
+						fe.label(), fe.HPrefixes, fr.pres, fe.HProgs, fe.HRuns, fe.HFollowed, fe.HPartial)
+				}
+
+				if fe.HarnessErr != "" {
+					harnessErr = "fault enumeration on " + fe.label() + ": " + fe.HarnessErr
+				}
+			}
+		}
+	}
+
 	// ---- (i) and (iii): engine A ----------------------------------------------
 	type bfsSystem struct {
 		name  string
@@ -364,6 +507,8 @@ func main() {
 
 		stackSystems, stackStates, stackTrans int
 		whenSystems, whenStates, whenTrans    int
+		famSystemsN, famStates, famTrans      int
+		famCut                                []string
 	)
 
 	depthDone := bfsDepth
@@ -421,6 +566,29 @@ func main() {
 		}
 	}
 
+	// (vii) start states that hold a family: one base, short or shallow - before the heavy ones
+	if part("family") {
+		for _, b := range baseNames {
+			if b != "MemFS" {
+				continue // OrefaFS has no Sub
+			}
+
+			for _, fr := range famRuns {
+				p, sched := splitPlan(fr.plan)
+				if !part(p) {
+					continue
+				}
+
+				bs := bfsSystem{sysName(b, planWhen(p, joinWhen(sched, fr.fam)), ""), fr.depth}
+				if fr.depth > 2 {
+					heavy = append(heavy, bs)
+				} else {
+					sysList = append(sysList, bs)
+				}
+			}
+		}
+	}
+
 	sysList = append(sysList, heavy...)
 
 	for i, bs := range sysList {
@@ -466,11 +634,23 @@ func main() {
 			sn, probe.NumOps(), st.States, st.Transitions, st.DepthDone, bs.depth, st.Exhaustive)
 
 		if stack == "" {
-			if st.DepthDone < depthDone {
-				depthDone = st.DepthDone
+			_, when := splitPlan(plan)
+			_, fam := splitWhen(when)
+
+			if fam == "" && st.DepthDone < depthDone {
+				depthDone = st.DepthDone // the systems of (vii) have bounds of their own, listed by name
 			}
 
-			if _, when := splitPlan(plan); when != "" {
+			switch {
+			case fam != "":
+				famSystemsN++
+				famStates += st.States
+				famTrans += st.Transitions
+
+				if st.DepthDone < bs.depth {
+					famCut = append(famCut, sn)
+				}
+			case when != "":
 				whenSystems++
 				whenStates += st.States
 				whenTrans += st.Transitions
@@ -540,10 +720,15 @@ func main() {
 
 	faultExh := true
 
-	var stackRunsN, stackHist, whenRunsN, whenHist, whenHRuns int
+	var stackRunsN, stackHist, whenRunsN, whenHist, whenHRuns, famRunsN, famHist, famHRuns int
 
-	for i, fe := range append(append(append([]*faultEngine{}, engines...), stackEngines...), whenEngines...) {
-		if i >= len(engines)+len(stackEngines) {
+	for i, fe := range append(append(append(append([]*faultEngine{}, engines...), stackEngines...), whenEngines...), famEngines...) {
+		if i >= len(engines)+len(stackEngines)+len(whenEngines) {
+			// engines that start with a family add runs and classes, as the stacked ones do
+			famRunsN += fe.FaultFree + fe.FaultRuns + fe.HProgs
+			famHist += fe.Histories
+			famHRuns += fe.HRuns
+		} else if i >= len(engines)+len(stackEngines) {
 			// engines with a schedule add runs and classes, as the stacked ones do
 			whenRunsN += fe.FaultFree + fe.FaultRuns + fe.HProgs
 			whenHist += fe.Histories
@@ -743,14 +928,76 @@ func main() {
 
 	usedWhens := map[string]bool{}
 
+	// (vii) what was run from start states that hold a family
+	var famBfsNames, famList []string
+
+	usedFams := map[string]bool{}
+	famBound := map[string][]string{} // "plan[@schedule], histories of length <= n" -> families
+
 	for _, st := range stats {
 		if _, plan, stack, _ := splitSysName(st.System); stack == "" {
-			if p, when := splitPlan(plan); when != "" {
+			p, when := splitPlan(plan)
+			sched, fam := splitWhen(when)
+
+			switch {
+			case fam != "":
+				usedFams[fam] = true
+
+				if sched != "" {
+					usedWhens[sched] = true
+				}
+
+				k := fmt.Sprintf("plan %s, histories of length <= %d", planWhen(p, sched), st.DepthDone)
+				famBound[k] = append(famBound[k], fam)
+			case when != "":
 				usedWhens[when] = true
 				whenBfsNames = append(whenBfsNames, fmt.Sprintf("%s (plan %s, %s): histories of length <= %d", when, p, st.System[:strings.IndexByte(st.System, '/')], st.DepthDone))
 			}
 		}
 	}
+
+	for k, fams := range famBound {
+		sort.Strings(fams)
+		famBfsNames = append(famBfsNames, k+": families "+strings.Join(fams, " "))
+	}
+
+	sort.Strings(famBfsNames)
+
+	famFaultBound := "none"
+
+	if len(famEngines) > 0 {
+		var parts []string
+
+		for _, fr := range famFaults {
+			usedFams[fr.fam] = true
+
+			p := fmt.Sprintf("%s: all single-fault plans of all histories of length <= %d", fr.fam, fr.hist)
+			if fr.handle {
+				p += fmt.Sprintf(" and the handle programmes opened through the pooled view with pre in {none%s}, SetFailFunc before the programme and at every position inside its opening prefix",
+					strings.Join(append([]string{""}, fr.pres...), ", "))
+			}
+
+			parts = append(parts, p)
+		}
+
+		famFaultBound = strings.Join(parts, "; ")
+
+		for _, fe := range famEngines {
+			if !fe.Exhaustive {
+				famFaultBound += " (" + fe.label() + " cut by the budget: " + fe.Partial + " " + fe.HPartial + ")"
+			}
+		}
+	}
+
+	if len(famCut) > 0 {
+		famBfsNames = append(famBfsNames, "cut by the budget: "+strings.Join(famCut, " "))
+	}
+
+	for f := range usedFams {
+		famList = append(famList, f+": "+famDesc(f))
+	}
+
+	sort.Strings(famList)
 
 	whenFaultBound := "none"
 
@@ -824,7 +1071,7 @@ func main() {
 			"single_fault_runs": faultRuns,
 			"concurrent_part":   conc,
 			"handle_programmes": map[string]any{
-				"shape":                        "open (every pool open of slot 0 on the FailFS, and through Sub(\"/\") on MemFS); [pre]; F fails; G; Close - F, G: every File method of the alphabet",
+				"shape":                        "open (every pool open of slot 0 on the FailFS, and on MemFS through Sub(\"/\") and through Sub(\"/\") of Sub(\"/\")); [pre]; F fails; G; Close - F, G: every File method of the alphabet",
 				"opening_prefixes":             hprefixes,
 				"pre":                          append([]string{"(none)"}, handlePres...),
 				"fault_free_runs":              hprogs,
@@ -869,6 +1116,23 @@ func main() {
 				"oracle_before_installing": "recording and single-fault plans: lock-step with the twin base (the FailFS as constructed); read-only plan: none (the calls build what ReadOnlyFunc then has to govern)",
 				"oracle_after_replacing":   "kind stale-function: no consultation may arrive at a recording function that is not the one installed now; after SetFailFunc(failfs.OkFunc) none at all; lock-step with the twin throughout",
 			},
+			"derivation_depth": map[string]any{
+				"lesson": "derivation is recursive: what a wrapper hands out (a file system from Sub) is itself a wrapper that hands out file systems and handles, and the statement holds for the whole family with one failure function, " +
+					"the one installed now through whichever member SetFailFunc was called. Code that links every derived object to the one it was derived from builds a chain, code that assumes the chain is flat agrees with it " +
+					"on the constructor's object and its direct children only: the depth of the objects in the pool, and the member SetFailFunc is called on, are dimensions",
+				"letters": "s=sub.Sub(\"/\"), s=sub.Sub(\"/d\") in every system on MemFS (the pooled view is replaced by a view derived from it; the chain of Sub calls is part of the state); " +
+					"handle programmes with the opening prefix Sub(\"/\");Sub(\"/\");open in every fault engine on MemFS",
+				"families":              famList,
+				"bfs_systems":           famSystemsN,
+				"bfs_states":            famStates,
+				"bfs_transitions":       famTrans,
+				"bfs_history_bound":     famBfsNames,
+				"fault_engines":         famEngines,
+				"fault_runs":            famRunsN,
+				"fault_histories":       famHist,
+				"handle_programme_runs": famHRuns,
+				"oracle":                "those of the plan, unchanged, on the calls through the root (failfs.*) and through the pooled view (sub.*, handles opened through it): own id consulted before any base effect, exactly E, base untouched, twin (the same chain of Sub calls on the twin base) in lock-step, base unchangeable under ReadOnlyFunc, stale-function",
+			},
 			"fault_outcomes_distinct":       len(foutcomes),
 			"states":                        states,
 			"transitions":                   trans,
@@ -880,9 +1144,12 @@ func main() {
 				"(ii) all single-fault plans of all histories of length <= %d (completed %d), twin in lock-step before and after the failure; "+
 				"(ii') all handle programmes open;[pre];F fails;G;Close with pre in {none, %s} (\"*\" = every File call), every File method F (every consultation, every error) and every File method G (%d letters); "+
 				"(iv) stacked and wrapped bases, same alphabet, twin = the wrapped base driven directly (twin stacks) or the bare base (plan stacks): engine A %s; fault enumeration %s; "+
-				"(vi) moment of SetFailFunc, same alphabet: engine A %s; fault enumeration %s",
+				"(vi) moment of SetFailFunc, same alphabet: engine A %s; fault enumeration %s; "+
+				"(vii) depth of derivation, same alphabet (which includes Sub of the pooled view), start states whose pool holds the view dN = root.Sub(\"/\")...Sub(\"/\") (N Sub calls), "+
+				"SetFailFunc called on the member named (root, v1..vN, a sibling w of vN), .pre = before the rest of the family is derived, MemFS: engine A %s; fault enumeration %s",
 				bfsDepth, depthDone, len(flagSets), len(nsPaths), faultHist, histDone, strings.Join(handlePres, ", "), len(fileCalls()),
-				strings.Join(bfsStackNames, ", "), stackFaultBound, strings.Join(whenBfsNames, ", "), whenFaultBound),
+				strings.Join(bfsStackNames, ", "), stackFaultBound, strings.Join(whenBfsNames, ", "), whenFaultBound,
+				strings.Join(famBfsNames, "; "), famFaultBound),
 			"known_findings_matched": append([]string{}, rep.KnownMatched()...),
 		},
 		Assumptions: []string{
@@ -908,6 +1175,10 @@ func main() {
 				"functions installed: the recording always-nil function(s) of the harness, the single-fault function, failfs.ReadOnlyFunc, and failfs.OkFunc for 'removed' (the function failfs.New installs: SetFailFunc(nil) is not enumerated, " +
 				"the API has no notion of it - the next call panics); the read-only plan is not continued after its function is removed (it has no twin that could say what the base must look like afterwards): removal is judged on the recording plan, " +
 				"by which function is consulted; schedules are run on the single FailFS only, not combined with the stacked bases of (iv)",
+			"depth of derivation: the families of the start states are chains of Sub(\"/\") (every member sees the whole tree, so that the path alphabet keeps its meaning) of depth <= 2 (thorough: 3) with one sibling outside the pool; " +
+				"only the root and the deepest view of the chain receive calls of the alphabet (the intermediate views and the sibling only ever receive SetFailFunc); every SetFailFunc call of a schedule goes to the same member; " +
+				"the Sub calls that derive the family are not calls of the history (their consultations are let through unrecorded, a fault plan cannot fire in them: Sub as a call that fails is a letter of the alphabet); " +
+				"deeper or differently rooted views arise only from the letters s=sub.Sub(p) within the history bound; MemFS only (OrefaFS has no Sub); families are not combined with the stacked bases of (iv)",
 		},
 		Violations: rep.NewCount(),
 	}
@@ -916,8 +1187,8 @@ func main() {
 		die("evidence: %v", err)
 	}
 
-	fmt.Printf("c12: tier=%s bfs systems=%d (of which on stacked bases=%d, with SetFailFunc in mid-history=%d) states=%d transitions=%d (depth %d/%d) | fault: histories=%d runs=%d (of which through stacked FailFS=%d, with SetFailFunc in mid-history=%d) single-fault=%d (of which handle programmes=%d, twin followed=%d) classes=%d length %d/%d | FnVFS covered %d/%d (+%d listed unreachable) | new signatures=%d exhaustive=%v wall=%.1fs\n",
-		*tier, len(stats), stackSystems, whenSystems, states, trans, depthDone, bfsDepth, histories, runs, stackRunsN, whenRunsN, faultRuns, hruns, hfollowed, len(classes), histDone, faultHist,
+	fmt.Printf("c12: tier=%s bfs systems=%d (of which on stacked bases=%d, with SetFailFunc in mid-history=%d, starting with a family of derived file systems=%d) states=%d transitions=%d (depth %d/%d) | fault: histories=%d runs=%d (of which through stacked FailFS=%d, with SetFailFunc in mid-history=%d, starting with a family=%d) single-fault=%d (of which handle programmes=%d, twin followed=%d) classes=%d length %d/%d | FnVFS covered %d/%d (+%d listed unreachable) | new signatures=%d exhaustive=%v wall=%.1fs\n",
+		*tier, len(stats), stackSystems, whenSystems, famSystemsN, states, trans, depthDone, bfsDepth, histories, runs, stackRunsN, whenRunsN, famRunsN, faultRuns, hruns, hfollowed, len(classes), histDone, faultHist,
 		len(coveredNames), len(allFn()), len(unreachableFn), rep.NewCount(), bfsExh && faultExh && harnessErr == "", ev.Elapsed())
 
 	os.Exit(code)
@@ -981,7 +1252,12 @@ func doReplay(path string) int {
 	showFn := func() {
 		if s.when != "" && s.installed != installed {
 			installed = s.installed
-			fmt.Printf("        failfs.SetFailFunc(%s)   [schedule %s]\n", installed, s.when)
+			obj := "failfs"
+			if s.fam != nil {
+				obj = "[family " + s.famName + ", family.go] " + s.fam.Target
+			}
+
+			fmt.Printf("        %s.SetFailFunc(%s)   [schedule %q]\n", obj, installed, s.sched)
 		}
 	}
 
